@@ -404,6 +404,34 @@ def block_size_field(ctx, prog):
     ctx.ob(R, "parse_block_size_from_bytes accumulates block_size*10 + (ch - '0') with overflow detection (checked_mul / checked_add)", ok, why, f.loc())
 
 
+def result_expr(f, sy):
+    """the expression a body returns; `match r { Ok(v) => Ok(v), Err(e) => Err(e) }` around a call r is r (each arm rebuilds the
+    variant it matched from that variant's own payload)"""
+    e = strip(sy.local(0))
+    if e[0] != "local":
+        return e
+    vals = []
+    for (b, _i, k, x) in f.defs.get(0, []):
+        if k != "rv":
+            return e
+        vals.append(strip(sy.rvalue(x)))
+    srcs = set()
+    seen = set()
+    for v in vals:
+        if v[0] != "agg" or len(v[2]) != 1:
+            return e
+        var = v[1].split("::")[-1]
+        r, names = fpath(v[2][0])
+        if names != ("<%s>" % var, "0") or strip(r)[0] != "call":
+            return e
+        srcs.add(canon(strip(r)))
+        seen.add(var)
+        last = strip(r)
+    if len(srcs) == 1 and seen == {"Ok", "Err"}:
+        return last
+    return e
+
+
 def entry_forms(ctx, prog):
     """all parse entry points are the one driver on the caller's bytes: from_str(s) = from_bytes(s.as_bytes()),
     from_bytes(b) = driver(b, &mut <fresh index>), from_bytes_with_last_index(b, i) = driver(b, i)"""
@@ -415,7 +443,7 @@ def entry_forms(ctx, prog):
             n += 1
             ctx.visit(f)
             sy0 = Sym(f)
-            e = strip(sy0.local(0))
+            e = strip(result_expr(f, sy0))
             ok = e[0] == "call" and e[1].endswith("::from_bytes") and len(e[2]) == 1
             direct = e[0] == "call" and e[1].endswith("::from_bytes_with_last_index_internal") and len(e[2]) == 2
             if ok or direct:
@@ -430,7 +458,7 @@ def entry_forms(ctx, prog):
             n += 1
             ctx.visit(f)
             sy = Sym(f)
-            e = strip(sy.local(0))
+            e = strip(result_expr(f, sy))
             ok = e[0] == "call" and e[1].endswith("::from_bytes_with_last_index_internal") and is_param(e[2][0], "str")
             if ok:
                 ix = sy.origin(strip(e[2][1]))
